@@ -1,12 +1,12 @@
 """C27 Objects keep their class and polymorphic queries are exact.
 
-Exhaustive enumeration over inheritance hierarchies {chain of 3, fork, diamond, chain with int
+Exhaustive enumeration over inheritance hierarchies {chain of 3, fork, diamond, diamond with a class below the join, chain with int
 discriminator, fork with explicit str discriminator values}: one stored object per class (plus a holder
 object referencing each through a base-class reference). In a fresh session every SEQUENCE of access
 routes of length <= 2 (thorough 3) is executed -
    holder.ref_C (seed through a reference declared with class C, for every class C the object is an instance
    of), holder.ref + attribute access, Base[pk], Sub[pk], Sub.get(pk), select(x for x in C), C.select(),
-   C.select_by_sql(), select(h.ref_C for h in Holder), select((h.id, h.ref_C) for h in Holder) (objects
+   C.select_by_sql(), C.select_random(1) under three seeds of the random module, select(h.ref_C for h in Holder), select((h.id, h.ref_C) for h in Holder) (objects
    delivered as one column of a tuple), isinstance / not isinstance / isinstance-tuple filters over EVERY
    iterated class B and every tested class C (base, same, subclass, sibling)
 - and after every step: each object obtained has exactly its creation class; each query over class C
@@ -23,6 +23,7 @@ HIERARCHIES = {
     'chain3':   dict(classes=[('Base', ()), ('Mid', ('Base',)), ('Leaf', ('Mid',))], disc=None),
     'fork':     dict(classes=[('Base', ()), ('L', ('Base',)), ('R', ('Base',))], disc=None),
     'diamond':  dict(classes=[('Base', ()), ('L', ('Base',)), ('R', ('Base',)), ('D', ('L', 'R'))], disc=None),
+    'diamond-e': dict(classes=[('Base', ()), ('L', ('Base',)), ('R', ('Base',)), ('D', ('L', 'R')), ('E', ('D',))], disc=None),
     'chain-int': dict(classes=[('Base', ()), ('Mid', ('Base',)), ('Leaf', ('Mid',))], disc=('int', {'Base': 1, 'Mid': 2, 'Leaf': 3})),
     'fork-str': dict(classes=[('Base', ()), ('L', ('Base',)), ('R', ('Base',))], disc=('str', {'Base': 'b', 'L': 'left', 'R': 'Base'})),
 }
@@ -74,6 +75,7 @@ def routes(E, names):
     R.append(('q_sql', names[0]))       # raw SQL over the whole table: only the root entity owns every column
     for c in names:
         R += [('q_gen', c), ('q_select', c), ('q_ref', c), ('q_tuple', c)]
+        R += [('q_random', c, k) for k in range(3)]
         for b in names: R += [('q_isinst', c, b), ('q_notinst', c, b)]
     for c, d in itertools.combinations(names, 2):
         for b in names: R.append(('q_isinst2', c, d, b))
@@ -107,6 +109,13 @@ def step(E, names, r, orm):
     elif r[0] == 'q_sql':
         t = Base._table_ if isinstance(Base._table_, str) else Base._table_[-1]
         got = list(E[c].select_by_sql('select * from "%s"' % t)); exp = inst(c)
+    elif r[0] == 'q_random':
+        # select_random draws primary keys with the random module: the seed is part of the route (replayable);
+        # whatever it returns must be instances of the class it was asked for
+        import random
+        random.seed(r[2])
+        got = list(E[c].select_random(1))
+        return ('subset', [(o.id, o) for o in got], inst(c))
     elif r[0] == 'q_ref':
         got = list(orm.select('h.%s for h in H if h.%s is not None' % ((refattr(names, c),) * 2), {'H': E['Holder']}, {})); exp = inst(c)
     elif r[0] == 'q_tuple':
@@ -148,6 +157,8 @@ def worker(args):
                 elif kind == 'set':
                     got = sorted(k for k, o in objs)
                     if got != extra: bad = 'query-result-differs'
+                elif kind == 'subset':
+                    if not objs or not set(k for k, o in objs) <= set(extra): bad = 'returned-object-that-is-not-an-instance'
                 if bad is None and objs:
                     for k, o in objs:
                         if type(o).__name__ != created[k]:
